@@ -85,6 +85,11 @@ CHECKS = {
    text="reply_is_result_or_coded_error, rejected_line_changes_nothing, only_enum_moves_the_cursor, range_is_inclusive, variables_are_answered_one_by_one, parameter_order_is_irrelevant (any permutation of well-delimited parameter groups of distinct kinds is either rejected as well or yields the same parameter record) hold for every line, node array and cursor state: the model is a total function, so in the model every line has a reply. Tie: every line `command t1 t2` over 14 commands x 39 tokens (keywords in both spellings, numbers, ranges, 0, out-of-range / extreme / malformed numbers, huge ranges, a path), random longer lines with 1..3 parameter groups, printable junk, empty lines and the inputs of the eight repaired defects are sent to the real handle_stream_msg on one long-lived instance under catch_unwind; each reply must be a result or E1..E6, a rejected line must leave the node array and feature count unchanged, count/sat answers of the well-formed subset are judged by the truth table, permuted parameter groups must agree, and every reply is compared with the Lean model's (exact text where the text is a literal of stream.rs, code otherwise).",
    note="The model covers a model loaded from an nnf file (no clause cache); the CNF-loaded handler paths (clause-update / undo-update / save-cnf) are exercised by the C12 check. Not modelled: reply contents of random / t-wise (random source) and save-* side effects (model says 'some result'), texts of library error types (nom, ParseIntError, ParseFloatError, io: compared by code), non-ASCII alphabetic characters (char::is_alphabetic is Unicode; generators emit ASCII), resource use of `random l N` / `t-wise l N` for large N (skipped above 10^4 / 3). 'Never hangs' is established per line by the harness finishing; no liveness theorem.",
    ref="DESIGN.md §8 C13"),
+ "C12": dict(
+   technique="Lean 4 refinement proof: the clause-cache machine (setup_for_edit / undo / swap, stream arms) refines the abstract (current CNF, previous CNF) machine for every start CNF and every command sequence, compiler as a parameter + replay of every explored history through the Lean machine and comparison of the real handler (reference compiler behind the hook) with an independent abstract machine and the truth table of its current CNF",
+   text="clause_cache_refines_spec: for every start clause set and every sequence of clause-update / undo-update commands the model of ClauseCache + update_cached_state + swap + undo_on_cached_state gives the verdicts of the abstract machine and ends with stored clause set = feature count = what the live model was compiled from = the abstract machine's current CNF, old model = its previous CNF; update_accepted_iff / accepted_update_result spell the abstract machine out (accepted iff no stored clause exceeds the new feature count, all literals within it, removals are distinct stored clauses; result = (stored minus rmv) union add); rejected_update_changes_nothing; undo_restores_and_redo_reapplies; save_writes_current_state; live_model_denotes_current_cnf (for every correct compiler). Tie: CNFs loaded through the real loader with the self-validated reference compiler behind the cfg hook; command trees over a fixed alphabet (undo, add fresh / stored clause, remove stored / absent / just-added clause, add+remove, remove+re-add, duplicate removal, t up / down / with new variable) explored exhaustively to depth 2..4 plus random sequences; after every command: verdict and error code vs an independent abstract machine, rejected command leaves the node array unchanged, save-cnf file = current clause set and feature count exactly, initial save-cnf equivalent to the input, C01-C06 battery vs truth table of the current clause set; the Lean machine replays every history and must reach the same saved state. The check found the undo defect (fixed 7a144ee).",
+   note="Modelled, not verified: the CNF compiler (d4; here the reference compiler, validated per call against the truth table) is a parameter of the theorem (live_model_denotes_current_cnf assumes it correct); DIMACS writer/reader text (write_cnf_to_file, nom lexer) tied by parsing the saved file; clauses are canonical sorted lists (BTreeSet<i32>); updates that make the formula unsatisfiable are outside the quantifier and not generated; Ddnnf::new creates no clause cache for a CNF whose simplified clause list is empty (all answers 'input must be a CNF') - start CNFs with an empty stored set are not generated (noted in DESIGN.md as D12, not reproduced with a non-empty set).",
+   ref="DESIGN.md §8 C12"),
  "C01": dict(
    technique="Lean 4 theorem (count = number of satisfying assignments for every well-formed node array) + per-input validated loader correspondence",
    text="Theorems count_is_model_count / same_function_same_count hold for every well-formed node array of any size (induction over the array, kernel-checked). The loader is tied per input: the Lean driver evaluates the decidable WF predicate and the truth table on the node array the real loader exported and compares with the truth table of the input text; the real code is compared with an independent oracle.",
